@@ -20,5 +20,6 @@ TemplatesV ==
     TSellSfl("", q1, <<8, 0>>, "-0.5!", <<-5, 1>>, TRUE),
     TSellSfl("", q1, <<8, 0>>, "0", Z, FALSE) }
 GapsV == {0, 10, 40}
+SplitRatiosV == {<<2, 1>>, <<1, 2>>, <<3, 2>>, <<1, 3>>}
 OpeningsV == {<<>>}
 =============================================================================
